@@ -131,9 +131,33 @@ func runFail(vm *ugo.VM, globals ugo.Object, args []ugo.Object) (string, *traceR
 	g := vm.GetGlobals()
 	gs := "onil:0"
 	if g != nil {
-		gs = codec.Encode(g, nil)
+		gs = codec.Encode(scrub(g), nil)
+	}
+	if ret != nil {
+		ret = scrub(ret)
 	}
 	return fmt.Sprintf("out=%s\tsteps=%d\tth=%d\tglobals=%s", outcomeString(ret, err, pv), tr.steps, tr.hash, gs), tr, pv
+}
+
+// scrub cuts Go stack text out of every string of a value (see noStack).
+func scrub(o ugo.Object) ugo.Object {
+	switch v := o.(type) {
+	case ugo.String:
+		return ugo.String(noStack(string(v)))
+	case ugo.Array:
+		r := make(ugo.Array, len(v))
+		for i, x := range v {
+			r[i] = scrub(x)
+		}
+		return r
+	case ugo.Map:
+		r := make(ugo.Map, len(v))
+		for k, x := range v {
+			r[k] = scrub(x)
+		}
+		return r
+	}
+	return o
 }
 
 func short(s string) string {
